@@ -26,7 +26,7 @@ WALL = {"quick": 1200, "thorough": 10800}
 MAX_TIMEOUTS = {"quick": 1, "thorough": 20}
 REQUIRED = {"build_files": 300, "residue_selections_checked": 5000, "molecule_blocks": 600, "ranges_spanning_other_names": 100,
             "start_specs": 150, "ligand_specs": 100, "ligands_built": 40, "split_specs": 100, "distance_restraint_blocks": 100,
-            "persistence_blocks": 60, "multi_residue_ligands": 15, "split_with_start_runs": 20}
+            "persistence_blocks": 60, "multi_residue_ligands": 15, "split_with_start_runs": 20, "ligand_specs_without_host_molecule": 10}
 _done = False
 
 
@@ -308,7 +308,19 @@ def run_ligands(rng, workdir, res):
     specs = []
     expect = []          # (host mol, host node, ligand mol)
     avail = list(ligs)
-    for _ in range(rng.randint(1, 2)):
+    if rng.random() < 0.25:
+        # host given by residue only (neither molecule name nor index): every molecule that has such a residue gets
+        # one of the ligands of that name, handed out in topology order
+        rn = rng.choice(["RA", "RB"])
+        ri = rng.randrange(3)
+        hits = [i for i, nme in enumerate(inst) if nme in ("CH", "BR") and ri < len(mts[nme]) and mts[nme][ri] == rn]
+        if hits and len(hits) <= len(ligs):
+            specs.append(["-%s#%d" % (rn, ri + 1), lname])
+            for k_, h in enumerate(hits):
+                expect.append((h, ri, ligs[k_]))
+            avail = []
+            bump(res, "ligand_specs_without_host_molecule")
+    for _ in range(rng.randint(1, 2) if not specs else 0):
         if not avail:
             break
         h = rng.choice(hosts)
